@@ -1012,14 +1012,14 @@ fn gen_moves_case(r: &Rng, idx: usize) -> Case {
         let op = *g.pick(&[Cmp::Eq, Cmp::Eq, Cmp::Eq, Cmp::Le, Cmp::Ge, Cmp::Lt, Cmp::Gt, Cmp::Ne]);
         Cond::Leaf(op, ColSel::Col(col), val(g, col))
     };
-    let query = |g: &mut Rng, nrows: i64| -> Step {
+    let cond2 = |g: &mut Rng, nrows: i64| -> Cond {
         let mut cols: Vec<usize> = (0..ncols).collect();
         g.shuffle(&mut cols);
         let a = leaf_on(g, cols[0], nrows);
         // the right-hand side of the outermost AND is an equality most of the time
         let b = if g.chance(3, 4) { Cond::Leaf(Cmp::Eq, ColSel::Col(cols[1]), val(g, cols[1])) } else { leaf_on(g, cols[1], nrows) };
         let third = leaf_on(g, cols[(2 % ncols).max(if ncols > 2 { 2 } else { 0 })], nrows);
-        let c = match g.below(12) {
+        match g.below(12) {
             0..=4 => and(a, b),
             5 => and(b, a),
             6 => and(and(third, a), b),
@@ -1028,7 +1028,10 @@ fn gen_moves_case(r: &Rng, idx: usize) -> Case {
             9 => and(or(third, a), b),
             10 => or(and(a, b), third),
             _ => and(a, or(b, third)),
-        };
+        }
+    };
+    let query = |g: &mut Rng, nrows: i64| -> Step {
+        let c = cond2(g, nrows);
         Step::Query(c, g.below(6) as usize, g.below(4) as usize, 1 + g.below(4) as usize)
     };
     at(&mut steps, 1);
@@ -1069,6 +1072,8 @@ fn gen_moves_case(r: &Rng, idx: usize) -> Case {
             },
             _ => and(idc(Cmp::Ge, pivot), Cond::Leaf(Cmp::Ne, ColSel::Col(col), v.clone())),
         };
+        // UPDATE / DELETE (also rolled back) conditioned by a tree over two differently indexed columns
+        let who = if g.chance(1, 4) { cond2(&mut g, nrows) } else { who };
         match g.below(12) {
             0..=6 => steps.push(upd(who, col, v)),
             7 => {
@@ -1116,27 +1121,37 @@ fn gen_moves_case(r: &Rng, idx: usize) -> Case {
     Case { name: format!("moves-{idx}"), schema, steps }
 }
 
-/// run a case; when it produced a violation of a class not seen before in this case, shrink the step list
-/// (ddmin, the class must reproduce) and put the shrunk failing input in the place of the first one
+/// run a case; for every class of violation it produced, shrink the step list (ddmin, the class must
+/// reproduce) and put the shrunk failing input in the place of the first one of that class
 fn run_case_shrinking(case: &Case, rep: &mut Report, m: &mut Model, text_budget: &mut u64) {
     let n0 = rep.violations.len();
     run_case(case, rep, m, text_budget);
     if rep.violations.len() == n0 {
         return;
     }
-    let class = rep.violations[n0]["class"].as_str().unwrap_or("").to_string();
-    let reproduce = |steps: &[Step], m: &mut Model| -> Option<serde_json::Value> {
-        let mut tmp = Report::new("");
-        let mut budget: u64 = 400;
-        run_case(&Case { name: case.name.clone(), schema: case.schema.clone(), steps: steps.to_vec() }, &mut tmp, m, &mut budget);
-        tmp.violations.iter().find(|v| v["class"] == class.as_str()).cloned()
-    };
-    let shrunk = shrink_list(&case.steps, &mut |steps: &[Step]| reproduce(steps, m).is_some());
-    if shrunk.len() < case.steps.len() {
-        if let Some(mut v) = reproduce(&shrunk, m) {
-            v["shrunk"] = json!(format!("{} of {} steps", shrunk.len(), case.steps.len()));
-            rep.violations[n0] = v;
-            rep.hit("shrunk_failing_input");
+    let mut classes: Vec<String> = Vec::new();
+    for v in &rep.violations[n0..] {
+        let c = v["class"].as_str().unwrap_or("").to_string();
+        if !classes.contains(&c) {
+            classes.push(c);
+        }
+    }
+    for class in classes.iter().take(4) {
+        let reproduce = |steps: &[Step], m: &mut Model| -> Option<serde_json::Value> {
+            let mut tmp = Report::new("");
+            let mut budget: u64 = 400;
+            run_case(&Case { name: case.name.clone(), schema: case.schema.clone(), steps: steps.to_vec() }, &mut tmp, m, &mut budget);
+            tmp.violations.iter().find(|v| v["class"] == class.as_str()).cloned()
+        };
+        let shrunk = shrink_list(&case.steps, &mut |steps: &[Step]| reproduce(steps, m).is_some());
+        if shrunk.len() < case.steps.len() {
+            if let Some(mut v) = reproduce(&shrunk, m) {
+                v["shrunk"] = json!(format!("{} of {} steps", shrunk.len(), case.steps.len()));
+                if let Some(slot) = rep.violations[n0..].iter_mut().find(|x| x["class"] == class.as_str()) {
+                    *slot = v;
+                    rep.hit("shrunk_failing_input");
+                }
+            }
         }
     }
 }
@@ -1577,28 +1592,45 @@ fn show_buckets(bs: &[Vec<u64>]) -> String {
 fn ascending(b: &[u64]) -> bool {
     b.windows(2).all(|w| w[0] < w[1])
 }
-/// ids that stand in a NOT ascending id vector of an index the condition's leaves can use on this engine (hash
-/// index of an `=` leaf's column, B-tree index of a range leaf's column)
-fn ids_in_unsorted_buckets(e: &RelationalEngine, c: &Cond, hash: &[String], btree: &[String]) -> Vec<u64> {
-    let mut leaves = Vec::new();
-    cond_leaves(c, &mut leaves);
-    let mut out = Vec::new();
-    for l in leaves {
-        if let Cond::Leaf(op, col, _) = l {
-            let n = col_name(col);
-            let kind = match op {
-                Cmp::Eq if hash.contains(&n) => "h",
-                Cmp::Lt | Cmp::Le | Cmp::Gt | Cmp::Ge if btree.contains(&n) => "o",
-                _ => continue,
-            };
-            for b in real_buckets(e, kind, &n).unwrap_or_default() {
-                if !ascending(&b) {
-                    out.extend(b);
-                }
-            }
+/// The same rows with FRESHLY BUILT indexes: a new engine receives the data operations of the case up to step
+/// `upto` (no index, no rolled-back statement -- neither changes a row), then the given indexes are created over
+/// the rows as they are now (`create_index` scans in id order: every id vector ascending), then `select`.
+/// Used only to classify a wrong answer: right here and wrong on the engine that lived through the history
+/// means the answer depends on the HISTORY of the indexes, not on the rows or on which indexes exist.
+fn fresh_indexed_select(case: &Case, upto: usize, hash: &[String], btree: &[String], cond: &Condition) -> Option<Vec<u64>> {
+    let e = RelationalEngine::new();
+    let cols: Vec<Column> = case.schema.iter().enumerate().map(|(i, (t, n))| {
+        let c = Column::new(format!("c{i}"), ty_col(*t));
+        if *n { c.nullable() } else { c }
+    }).collect();
+    e.create_table("t", Schema::new(cols)).ok()?;
+    let row_map = |vs: &Vec<Option<Value>>| -> HashMap<String, Value> {
+        vs.iter().enumerate().filter_map(|(i, v)| v.clone().map(|v| (format!("c{i}"), v))).collect()
+    };
+    for step in case.steps.iter().take(upto) {
+        match step {
+            Step::Insert(vs) | Step::InsertExtra(vs) => {
+                let _ = e.insert("t", row_map(vs));
+            },
+            Step::BatchInsert(rows) => {
+                let _ = e.batch_insert("t", rows.iter().map(row_map).collect());
+            },
+            Step::Update(c, sets) => {
+                let _ = e.update("t", to_engine(c), sets.iter().map(|(c, v)| (col_name(c), v.clone())).collect());
+            },
+            Step::Delete(c) => {
+                let _ = e.delete_rows("t", to_engine(c));
+            },
+            _ => {},
         }
     }
-    out
+    for c in hash {
+        let _ = e.create_index("t", c);
+    }
+    for c in btree {
+        let _ = e.create_btree_index("t", c);
+    }
+    e.select("t", cond.clone()).ok().map(|r| row_ids(&r))
 }
 
 /// the leaf whose index `try_index_lookup` uses: the first index-usable leaf of the AND spine, left to right
@@ -1611,9 +1643,11 @@ fn lookup_leaf<'a>(c: &'a Cond, hash: &[String], btree: &[String]) -> Option<&'a
 }
 
 /// stable, machine-computed `<site>/<kind>` of a strategy's wrong answer; `lk` = the leaf the index lookup of
-/// this engine uses (`lookup_leaf`), `unsorted` = `ids_in_unsorted_buckets`
+/// this engine uses (`lookup_leaf`), `history_dependent` = the same rows with freshly built indexes are
+/// answered correctly (`fresh_indexed_select`), `indexed` = every id that stands in some id vector of the hash
+/// index that is looked up (read from the store; `None` = not readable)
 #[allow(clippy::too_many_arguments)]
-fn classify(strategy: &str, plan: &str, c: &Cond, got: &[u64], want: &[u64], img: &Img, dead_slots: bool, unsorted: &[u64], lk: Option<&Cond>) -> String {
+fn classify(strategy: &str, plan: &str, c: &Cond, got: &[u64], want: &[u64], img: &Img, dead_slots: bool, history_dependent: bool, lk: Option<&Cond>, indexed: Option<&[u64]>) -> String {
     let missing: Vec<u64> = want.iter().filter(|x| !got.contains(x)).copied().collect();
     let extra: Vec<u64> = got.iter().filter(|x| !want.contains(x)).copied().collect();
     let mut leaves = Vec::new();
@@ -1633,6 +1667,21 @@ fn classify(strategy: &str, plan: &str, c: &Cond, got: &[u64], want: &[u64], img
                 "btree" => "relational_engine.btree_index",
                 _ => "relational_engine.scan",
             };
+            // a row with NULL in the looked-up column is missed by `= NULL` and its id stands in NO id vector of that
+            // index: the row was never filed (when the store cannot be read: the signature alone)
+            if plan == "hash" && !missing.is_empty() {
+                if let Some(Cond::Leaf(Cmp::Eq, col, Value::Null)) = lk {
+                    if missing.iter().any(|id| val_of(*id, col) == Some(Value::Null) && indexed.is_none_or(|ix| !ix.contains(id))) {
+                        return format!("{site}/null_row_not_indexed");
+                    }
+                }
+            }
+            // same rows, same set of indexes, the indexes built afresh: the right answer -- so what is wrong is
+            // what the history of inserts / updates / deletes / rollbacks left in the index (the order of the ids
+            // in its vectors, for one), not the bucket function (a wrong bucket function fails on fresh indexes too)
+            if plan != "scan" && history_dependent {
+                return format!("{site}/answer_depends_on_index_history");
+            }
             // the bucket-function classes: only the leaf that is looked up in the hash index can miss a row this way
             if plan == "hash" && !missing.is_empty() {
                 for l in lk.iter() {
@@ -1641,9 +1690,6 @@ fn classify(strategy: &str, plan: &str, c: &Cond, got: &[u64], want: &[u64], img
                             if *z == 0.0 && missing.iter().any(|id| matches!(val_of(*id, col), Some(Value::Float(x)) if x == 0.0 && x.to_bits() != z.to_bits())) {
                                 return format!("{site}/negative_zero_missed");
                             }
-                        }
-                        if *v == Value::Null && missing.iter().any(|id| val_of(*id, col) == Some(Value::Null)) {
-                            return format!("{site}/null_row_not_indexed");
                         }
                         // a missing row holds a JSON value that equals the constant, renders differently, and
                         // renders the same once every floating-point zero is written `0.0`
@@ -1656,11 +1702,6 @@ fn classify(strategy: &str, plan: &str, c: &Cond, got: &[u64], want: &[u64], img
                         }
                     }
                 }
-            }
-            // rows are lost (none invented) and a lost row's id stands in an id vector that is not in ascending
-            // order: the answer depends on the history that filled the bucket, not on its content
-            if plan != "scan" && extra.is_empty() && missing.iter().any(|id| unsorted.contains(id)) {
-                return format!("{site}/rows_of_unsorted_bucket_missed");
             }
             if strategy == "count" {
                 format!("{site}/wrong_count")
@@ -2393,9 +2434,13 @@ fn run_case(case: &Case, rep: &mut Report, m: &mut Model, text_budget: &mut u64)
                                         continue_model_compare(rep, m, is_model_engine, strategy, &mline, &want_s, &input);
                                         continue;
                                     }
-                                    // (`count` answers with a number, not with ids)
-                                    let unsorted = if plan == "scan" || strategy == "count" { Vec::new() } else { ids_in_unsorted_buckets(e, c, hs, bs) };
-                                    let class = classify(strategy, plan, c, ids, &want_s, &img, dead_slots, &unsorted, lookup_leaf(c, hs, bs));
+                                    let history_dependent = strategy == "select" && plan != "scan" && fresh_indexed_select(case, si, hs, bs, &ec).is_some_and(|fresh| fresh == want);
+                                    let lk = lookup_leaf(c, hs, bs);
+                                    let indexed: Option<Vec<u64>> = match (plan, lk) {
+                                        ("hash", Some(Cond::Leaf(_, col, _))) => real_buckets(e, "h", &col_name(col)).map(|b| b.concat()),
+                                        _ => None,
+                                    };
+                                    let class = classify(strategy, plan, c, ids, &want_s, &img, dead_slots, history_dependent, lk, indexed.as_deref());
                                     viol(rep, &class, &format!("{strategy} on engine '{ename}' (plan {plan}) returned {} but exactly {} satisfy the condition", show_ids(ids), show_ids(&want_s)), json!({"case": input(), "strategy": strategy, "engine": ename, "limit": limit, "offset": offset, "batch": batch, "table": show_img(&img)}));
                                 }
                             },
@@ -2591,7 +2636,7 @@ fn run_case(case: &Case, rep: &mut Report, m: &mut Model, text_budget: &mut u64)
                                 if ids != want && eall_select.as_ref() == Some(&ids) {
                                     rep.hit("inherits_select_defect.router_text");
                                 } else if ids != want {
-                                    let class = classify("router_text", "any", c, &ids, &want, &img, dead_slots, &[], None);
+                                    let class = classify("router_text", "any", c, &ids, &want, &img, dead_slots, false, None, None);
                                     viol(rep, &class, &format!("`{stmt}` returned {} but exactly {} satisfy the condition", show_ids(&ids), show_ids(&want)), json!({"case": input(), "statement": stmt, "table": show_img(&img)}));
                                 }
                             },
@@ -2611,7 +2656,7 @@ fn run_case(case: &Case, rep: &mut Report, m: &mut Model, text_budget: &mut u64)
                                 if ids != want && eall_select.as_ref() == Some(&ids) {
                                     rep.hit("inherits_select_defect.router_parsed");
                                 } else if ids != want {
-                                    let class = classify("router_parsed", "any", c, &ids, &want, &img, dead_slots, &[], None);
+                                    let class = classify("router_parsed", "any", c, &ids, &want, &img, dead_slots, false, None, None);
                                     viol(rep, &class, &format!("`{stmt}` (parser path) returned {} but exactly {} satisfy the condition", show_ids(&ids), show_ids(&want)), json!({"case": input(), "statement": stmt, "table": show_img(&img)}));
                                 }
                             },
@@ -2957,7 +3002,13 @@ fn main() {
     let mut text_budget: u64 = if args.thorough { 75_000 } else { 11_000 };
 
     value_semantics(&mut rep, &mut m, &mut root.fork("values"), if args.thorough { 20_000 } else { 4_000 });
+    // `--only-moves` (diagnostic, never used by `check`): the `moves` stream alone, to measure what it finds
+    // without the directed cases
+    let only_moves = args.extra.iter().any(|x| x == "--only-moves");
     for case in bucket_order_cases().into_iter().chain(directed_cases(args.thorough)) {
+        if only_moves {
+            break;
+        }
         rep.hit("case.directed");
         run_case_shrinking(&case, &mut rep, &mut m, &mut text_budget);
     }
@@ -2968,7 +3019,7 @@ fn main() {
         run_case_shrinking(&case, &mut rep, &mut m, &mut text_budget);
     }
     let mut r = root.fork("cases");
-    for idx in 0..n_cases {
+    for idx in 0..(if only_moves { 0 } else { n_cases }) {
         let case = gen_case(&mut r, idx, n_ops, n_queries);
         rep.hit("case.random");
         run_case_shrinking(&case, &mut rep, &mut m, &mut text_budget);
